@@ -2753,13 +2753,22 @@ class Cond(Generic[X, R], GFI[X, R]):
         **kwargs,
     ) -> tuple[Trace[X, R], Weight, X]:
         (check, *rest_args) = args
-        new_tr, w, discard = self.callee.update(tr.trs[0], x, *rest_args, **kwargs)
-        new_tr_, w_, discard_ = self.callee_.update(tr.trs[1], x, *rest_args, **kwargs)
-        # Merge discarded values
-        merged_discard, _ = self.callee.merge(discard, discard_)
+        # Unconstrained addresses keep the values visible in the old trace, also in
+        # the branch that was hidden so far (it becomes visible if `check` flips).
+        old_choices = tr.get_choices()
+        if x is None:
+            x = old_choices
+        elif isinstance(x, dict) and isinstance(old_choices, dict):
+            x, _ = self.callee.merge(old_choices, x)
+        new_tr, _, discard = self.callee.update(tr.trs[0], x, *rest_args, **kwargs)
+        new_tr_, _, discard_ = self.callee_.update(tr.trs[1], x, *rest_args, **kwargs)
+        new_cond_tr = CondTr(self, check, [new_tr, new_tr_])
+        # The discard holds the values that were visible under the old condition.
+        merged_discard, _ = self.callee.merge(discard, discard_, tr.check)
         return (
-            CondTr(self, check, [new_tr, new_tr_]),
-            jnp.where(check, w, w_),
+            new_cond_tr,
+            # log p(new choices; new args) - log p(old choices; old args)
+            tr.get_score() - new_cond_tr.get_score(),
             merged_discard,
         )
 
@@ -2780,7 +2789,8 @@ class Cond(Generic[X, R], GFI[X, R]):
         elif discard_ is None:
             merged_discard = discard
         else:
-            merged_discard, _ = self.callee.merge(discard, discard_)
+            # the values that were visible under the old condition
+            merged_discard, _ = self.callee.merge(discard, discard_, tr.check)
         return (
             CondTr(self, check, [new_tr, new_tr_]),
             jnp.where(check, w, w_),
